@@ -89,6 +89,12 @@ def gen_cases(tier, seed):
         cases.append({"dtype": "uint32", "block": [8, 8, 8], "shape": [2, 64, 64, 64],
                       "nlab": 4096, "mag": "u32", "layout": "F",
                       "style": {"tables_after_values": True, "gaps": True}, "vseed": 12})
+    # directed: a channel whose encoded size exceeds 2^24 32-bit words, the largest lookup
+    # table offset a block header can hold (the encoder may refuse; it must not emit a file
+    # whose headers cannot be followed)
+    cases.append({"huge": True, "dtype": "uint64", "block": [8, 8, 8],
+                  "shape": [1, 208, 256, 128], "nlab": "all", "mag": "max", "layout": "C",
+                  "style": {}, "vseed": 13})
     # directed: 256/257 and 16/17 labels inside one block (bit-width boundaries)
     for nl, blk in [(2, [2, 1, 1]), (3, [3, 1, 1]), (4, [2, 2, 1]), (5, [5, 1, 1]),
                     (16, [4, 4, 1]), (17, [17, 1, 1]), (256, [16, 16, 1]), (257, [16, 17, 1]),
@@ -148,9 +154,85 @@ def _labels(case, rnd, count):
     return [rnd.choice(pool) for _ in range(count)]
 
 
+def _run_huge(case):
+    """All-distinct uint64 labels in a chunk large enough for the lookup tables to lie beyond
+    the 24-bit table offset of the block header.  Judged with a vectorised reading of the
+    specification: every block header must carry a permitted bit width and offsets inside the
+    file, and a sample of blocks is decoded from its header alone."""
+    import numpy as np
+    from neuroglancer_scripts import chunk_encoding as ce
+    C, Z, Y, X = case["shape"]
+    bx, by, bz = case["block"]
+    rng = np.random.default_rng(case["vseed"])
+    arr = rng.permutation(Z * Y * X).astype("uint64").reshape(1, Z, Y, X)
+    arr += np.uint64(2 ** 63)
+    ctx = f"uint64 shape(C,Z,Y,X)={case['shape']} block(x,y,z)={case['block']} all distinct"
+    obs = {"channel_beyond_24_bit_table_offsets": 1}
+    enc = ce.CompressedSegmentationEncoder("uint64", 1, case["block"])
+    try:
+        buf = bytes(enc.encode(arr))
+    except Exception:  # noqa: BLE001  (refusing what the format cannot hold is permitted)
+        obs["oversized_channel_refused"] = 1
+        return {"violations": [], "obs": obs, "sigs": ["huge|refused"]}
+    obs["oversized_channel_encoded"] = 1
+    v = []
+    words = np.frombuffer(buf[:len(buf) // 4 * 4], dtype="<u4")
+    gx, gy, gz = -(-X // bx), -(-Y // by), -(-Z // bz)
+    nblocks = gx * gy * gz
+    if len(buf) % 4 or len(words) < 1 + 2 * nblocks or words[0] != 1:
+        v.append({"kind": "output-not-well-formed", "detail": f"{ctx}: bad channel header or "
+                  f"file length {len(buf)}"})
+        return {"violations": v, "obs": obs}
+    hdr = words[1:1 + 2 * nblocks].reshape(nblocks, 2)
+    bits = hdr[:, 0] >> 24
+    toff = (hdr[:, 0] & 0xFFFFFF).astype("int64")
+    voff = hdr[:, 1].astype("int64")
+    chan = words[1:]
+    bad = np.nonzero(~np.isin(bits, [0, 1, 2, 4, 8, 16, 32]))[0]
+    if len(bad):
+        v.append({"kind": "output-not-well-formed", "detail": f"{ctx}: block {int(bad[0])} "
+                  f"declares {int(bits[bad[0]])} encoded bits ({len(bad)} such blocks)"})
+        return {"violations": v, "obs": obs}
+    vwords = bits.astype("int64") * (bx * by * bz) // 32
+    if np.any(voff + vwords > len(chan)) or np.any(toff >= len(chan)):
+        v.append({"kind": "output-not-well-formed", "detail": f"{ctx}: offsets past the end "
+                  "of the file"})
+        return {"violations": v, "obs": obs}
+    pick = sorted(set([0, nblocks - 1, nblocks // 2]
+                      + [int(k) for k in rng.integers(0, nblocks, 300)]))
+    for b in pick:
+        x0, y0, z0 = (b % gx) * bx, (b // gx % gy) * by, (b // (gx * gy)) * bz
+        nb = int(bits[b])
+        n = bx * by * bz
+        if nb:
+            vw = chan[voff[b]:voff[b] + n * nb // 32]
+            idx = ((vw[:, None] >> (np.arange(32 // nb, dtype="uint32") * nb))
+                   & np.uint32(2 ** nb - 1 if nb < 32 else 0xFFFFFFFF)).reshape(-1)[:n]
+        else:
+            idx = np.zeros(n, dtype="int64")
+        top = int(idx.max())
+        if 2 * (toff[b] + top) + 1 >= len(chan):
+            v.append({"kind": "output-not-well-formed", "detail": f"{ctx}: block {b}: lookup "
+                      "table extends past the end of the file"})
+            break
+        tab = chan[toff[b]:toff[b] + 2 * (top + 1)].astype("uint64")
+        lab = (tab[0::2] | (tab[1::2] << np.uint64(32)))[idx].reshape(bz, by, bx)
+        want = arr[0, z0:z0 + bz, y0:y0 + by, x0:x0 + bx]
+        if not np.array_equal(lab[:want.shape[0], :want.shape[1], :want.shape[2]], want):
+            v.append({"kind": "spec-decoder-recovers-different-labels",
+                      "detail": f"{ctx}: block {b} at (x,y,z)=({x0},{y0},{z0}) read from its "
+                      f"header (bits {nb}, table offset {int(toff[b])}) differs from the "
+                      "original labels"})
+            break
+    obs["blocks_of_oversized_channel_decoded"] = len(pick)
+    return {"violations": v, "obs": obs, "sigs": ["huge|encoded"]}
+
+
 def run_case(case):
     import numpy as np
     from neuroglancer_scripts import chunk_encoding as ce
+    if case.get("huge"):
+        return _run_huge(case)
     rnd = random.Random(case["vseed"])
     C, Z, Y, X = case["shape"]
     dt = np.dtype(case["dtype"])
@@ -334,6 +416,8 @@ def gates(obs, tier):
         "shared_tables_emitted": obs.get("tables_shared_by_encoder", 0) > 10,
         "alternative_layouts_decoded": obs.get("alt_layouts_decoded", 0) > 50,
         "production_sized_chunk": obs.get("chunk_of_64_cubed", 0) > 0,
+        "channel_beyond_24_bit_table_offsets": obs.get(
+            "oversized_channel_refused", 0) + obs.get("oversized_channel_encoded", 0) > 0,
         "byte_sparse_label_palettes": obs.get("byte_sparse_palettes", 0) > 50,
         "big_endian_input_arrays": obs.get("big_endian_arrays", 0) > 50,
         "datasets_with_differing_block_sizes_per_scale": obs.get(
